@@ -165,3 +165,13 @@ Theorem C16_emulator_step_model_is_the_source : forall st f, wf_bytes f -> conf_
     end.
 Proof. exact emu_receive_step_agrees. Qed.
 Print Assumptions C16_emulator_step_model_is_the_source.
+
+(* (10) and MarshalMessage as regenerated from emulator.go: it hands the encoder the identifier of the LAST configured
+   setting of the requested data type, unchanged, or refuses with "not in output configuration" when there is none; the
+   state is untouched.  (The model's EMarshal observation is that identifier's wire form.) *)
+Theorem C16_marshal_model_is_the_source : forall md dt st a, conf_ok st ->
+  g_Emulator_MarshalMessage md dt st = Val (marshal_result md (last_match dt (econf (absE st a))), st) /\
+  estep (absE st a) (EMarshal dt) =
+    (OMar (option_map (fun id => let '(t, c, p) := id in f_DataIdentifier_Uint16 t c p) (last_match dt (econf (absE st a)))), absE st a).
+Proof. exact emu_marshal_agrees. Qed.
+Print Assumptions C16_marshal_model_is_the_source.
